@@ -1,19 +1,41 @@
 import Mdsort.Model.Flags
 import Mdsort.Model.Scripts
+import Mdsort.Proofs.LimitsText
+import Mdsort.Proofs.LimitsSticky
+import Mdsort.Proofs.L0RefineUtil
+import Mdsort.Proofs.ConfErrors
+import Mdsort.Proofs.MainText
+import Mdsort.Model.Start
 
 /-!
 # C18 - over-long paths are rejected, never truncated
 
-Every fixed-size buffer mdsort fills is filled by one of three setters (`snprintf`-based
-`pathjoin`, `strlcpy`, `pathslice`), each followed by a size test.  In the model a setter returns
-`none` exactly when the C function reports that the result does not fit, and otherwise the
-COMPLETE intended string: a truncated string is not a value the model can produce, so every path
-argument of every call of `Model.mainP` is an intended path (the conformance run checks the real
-binary's arguments against them, including at lengths around the limits).
+Every fixed-size buffer mdsort fills is filled by one of a few setters (`snprintf`-based `pathjoin`, `strlcpy`,
+`pathslice`, the `snprintf` of `maildir_genname`, of `expandtilde`, of `defaultconf`), each followed by a size test.
+In the model a setter returns `none` exactly when the C function reports that the result does not fit, and otherwise
+the COMPLETE intended string.
+
+The limits are a parameter (`Model.Limits`: `PATH_MAX`, `NAME_MAX + 1`, the host name buffer; a size is a number of
+bytes or `inf`, the ideal unbounded string).  `Model.mainPL L` is `main` under the limits `L`; `Model.mainPL stdLimits`
+IS `Model.mainP`, the program the conformance run compares with the real binary (`C18_model_is_std`).
+
+* `C18_limits_exact`: every setter, every size `n`: accepted iff the full result is shorter than `n`, and then the
+  full result (`n - 1` accepted, `n` rejected: `C18_limits_boundary`).
+* `C18_refines_unbounded`: for `L ≤ L'` (in particular `L' = Limits.unbounded`): the run under `L` issues the same
+  calls with the same arguments, sees the same results and computes the same values as the run under `L'` until a
+  setter overflows under `L`; from there the unit of work that overflowed (message / maildir / spool / configuration)
+  only releases descriptors, the loop goes on with the NEXT unit, and the run ends with the error flag and a
+  non-zero exit status.  `C18_run_units` + `C18_unit_refines` say the same for every unit from every state, which
+  is what holds after the first overflow (the two runs necessarily part there: the unbounded one acts on the message
+  the bounded one has rejected).
+* `C18_no_truncated_path`: the traces of `mainP` and of the run with ideal strings, for every oracle (every behaviour
+  of the file system, every fault plan, every interleaving).
+* `C18_config_time`: the parser tests exactly the `~`-expanded strings; a configuration it rejects is rejected as a
+  whole; literal and macro-expanded paths are tested where they are used.
 -/
 
 namespace Mdsort.Props
-open Mdsort Mdsort.Model
+open Mdsort Mdsort.Model Mdsort.Proofs.Limits Mdsort.Proofs.World
 
 /-- `pathjoin` accepts exactly the results shorter than the buffer, and then returns `dir/file`
 in full: no off-by-one in either direction, for every buffer size. -/
@@ -38,8 +60,729 @@ theorem C18_strlcpy_exact (n : Nat) (s : Bytes) :
   · have : s.length ≥ n := by omega
     simp [h, this]
 
-/-- A generated file name is only ever used in full: `genname` returns a name only after creating
-exactly that name, and never one that does not fit `NAME_MAX`. -/
+/-- The platform's limits. -/
 theorem C18_limits : NAME_MAX1 = 256 ∧ PATH_MAX = 4096 := by decide
+
+/-! ## the limits as parameters -/
+
+/-- At the platform's limits the parametrised model is the model: the setters, the evaluator, one message, the walk,
+`main` from the trees and `main` from the configuration text. -/
+theorem C18_model_is_std :
+    (∀ n d f, pathjoinL (.fin n) d f = pathjoin n d f) ∧
+    (∀ n s, strlcpyL (.fin n) s = strlcpyFits n s) ∧
+    (∀ path n b e, pathsliceL path (.fin n) b e = pathslice path n b e) ∧
+    (∀ env root e part m st, evalL stdLimits env root e part m st = eval env root e part m st) ∧
+    (∀ env ml msgs, matchesInterpolateL stdLimits env ml msgs = matchesInterpolate env ml msgs) ∧
+    (∀ env orc expr md name st, processMessageL stdLimits env orc expr md name st = processMessage env orc expr md name st) ∧
+    (∀ env orc expr fuel md st, walkL stdLimits env orc expr fuel md st = walk env orc expr fuel md st) ∧
+    (∀ env input, maildirStdinL stdLimits env input = maildirStdin env input) ∧
+    (∀ env orc confOk conf files input, mainPL stdLimits env orc confOk conf files input = mainP env orc confOk conf files input) ∧
+    (∀ home defs rxOk text, parseConfigL stdLimits.pathMax home defs rxOk text = parseConfig home defs rxOk text) ∧
+    (∀ env orc rxOk defs text files input,
+      mainTextL stdLimits env orc rxOk defs text files input = mainText env orc rxOk defs text files input) :=
+  ⟨fun _ _ _ => rfl, fun _ _ => rfl, fun _ _ _ _ => rfl, fun env root e part m st => evalL_std env root e part m st,
+   matchesInterpolateL_std, processMessageL_std, fun env orc expr fuel md st => walkL_std env orc expr fuel md st,
+   maildirStdinL_std, mainPL_std, fun _ _ _ _ => rfl, mainTextL_std⟩
+
+/-! ## every setter accepts exactly what fits -/
+
+/-- **Every setter, every buffer size `n`**: the result is the full intended string when that is shorter than `n`
+(`n - 1` characters and the terminator fit) and a refusal otherwise - for `pathjoin` (`md_path`, `me_path`, `mh_path`,
+`md_root` of the spool, the templates of `mkdtemp` / `mkostemp`), `strlcpy` (`md_root`, `me_name`, `mh_maildir`,
+`mh_subdir`, `mh_path`, `ev_home`, `ev_tmpdir`), `pathslice` (`mh_maildir`, `mh_subdir`, `md_root` of a destination,
+the `new`/`cur` component), the name buffer of `maildir_genname`, the buffer of `expandtilde`, the templates of
+`mkdtemp` / `mkostemp`, the host name buffer.  (`defaultconf` and the copies of HOME / TMPDIR / TZ are modelled separately, `Model/Start.lean` of package ce8.) -/
+theorem C18_limits_exact (n : Nat) :
+    (∀ d f, pathjoinL (.fin n) d f = if d.length + 1 + f.length < n then some (d ++ [47] ++ f) else none) ∧
+    (∀ s, strlcpyL (.fin n) s = if s.length < n then some s else none) ∧
+    (∀ path b e, pathsliceL path (.fin n) b e =
+      (pathsliceL path .inf b e).bind fun s => if s.length < n then some s else none) ∧
+    (∀ name, gennameBufL (.fin n) name = if name.length < n then some name else none) ∧
+    (∀ home r, expandTildeL (.fin n) home (126 :: r) = if home.length + r.length < n then some (home ++ r) else none) ∧
+    (∀ tmpdir, pathjoinL (.fin n) tmpdir (ofString "mdsort-XXXXXXXX") =
+      if tmpdir.length + 16 < n then some (tmpdir ++ [47] ++ ofString "mdsort-XXXXXXXX") else none) ∧
+    (∀ host, readHostL (.fin n) host = if host.length < n then some (host.takeWhile (· != 46)) else none) := by
+  refine ⟨fun d f => ?_, fun s => ?_, fun path b e => ?_, fun name => ?_, fun home r => ?_, fun tmpdir => ?_, fun host => ?_⟩
+  · rw [pathjoinL_exact]; simp only [Lim.fits_fin, decide_eq_true_eq]
+  · rw [strlcpyL_exact]; simp only [Lim.fits_fin, decide_eq_true_eq]
+  · have := pathsliceL_Exact path b e (.fin n)
+    simp only [Lim.fits_fin, decide_eq_true_eq] at this
+    exact this
+  · simp only [gennameBufL, Lim.fits_fin, decide_eq_true_eq]
+  · simp only [expandTildeL, Lim.fits_fin, decide_eq_true_eq]
+  · rw [pathjoinL_exact]
+    simp only [Lim.fits_fin, decide_eq_true_eq]
+    have : (ofString "mdsort-XXXXXXXX").length = 15 := by decide +kernel
+    rw [this]
+  · unfold readHostL
+    rw [strlcpyL_exact]
+    simp only [Lim.fits_fin, decide_eq_true_eq]
+    split <;> rfl
+
+/-- No off-by-one in either direction: a result of `n - 1` characters is accepted in full, one of `n` characters is
+rejected. -/
+theorem C18_limits_boundary (n : Nat) (hn : 0 < n) :
+    (∀ d f, d.length + 1 + f.length = n - 1 → pathjoinL (.fin n) d f = some (d ++ [47] ++ f)) ∧
+    (∀ d f, d.length + 1 + f.length = n → pathjoinL (.fin n) d f = none) ∧
+    (∀ s, s.length = n - 1 → strlcpyL (.fin n) s = some s) ∧
+    (∀ s, s.length = n → strlcpyL (.fin n) s = none) ∧
+    (∀ path b e s, pathsliceL path .inf b e = some s → s.length = n - 1 → pathsliceL path (.fin n) b e = some s) ∧
+    (∀ path b e s, pathsliceL path .inf b e = some s → s.length = n → pathsliceL path (.fin n) b e = none) ∧
+    (∀ name, name.length = n - 1 → gennameBufL (.fin n) name = some name) ∧
+    (∀ name, name.length = n → gennameBufL (.fin n) name = none) ∧
+    (∀ home r, home.length + r.length = n - 1 → expandTildeL (.fin n) home (126 :: r) = some (home ++ r)) ∧
+    (∀ home r, home.length + r.length = n → expandTildeL (.fin n) home (126 :: r) = none) := by
+  obtain ⟨h1, h2, h3, h4, h5, _⟩ := C18_limits_exact n
+  refine ⟨fun d f h => ?_, fun d f h => ?_, fun s h => ?_, fun s h => ?_, fun path b e s hs h => ?_, fun path b e s hs h => ?_,
+    fun name h => ?_, fun name h => ?_, fun home r h => ?_, fun home r h => ?_⟩
+  · rw [h1, if_pos (by omega)]
+  · rw [h1, if_neg (by omega)]
+  · rw [h2, if_pos (by omega)]
+  · rw [h2, if_neg (by omega)]
+  · rw [h3, hs]; simp only [Option.bind_some]; rw [if_pos (by omega)]
+  · rw [h3, hs]; simp only [Option.bind_some]; rw [if_neg (by omega)]
+  · rw [h4, if_pos (by omega)]
+  · rw [h4, if_neg (by omega)]
+  · rw [h5, if_pos (by omega)]
+  · rw [h5, if_neg (by omega)]
+
+/-- A smaller buffer never gives a DIFFERENT string: it gives what the larger one gives, or it refuses. -/
+theorem C18_setters_monotone {l l' : Lim} (h : l ≤ l') :
+    (∀ d f, pathjoinL l d f = none ∨ pathjoinL l d f = pathjoinL l' d f) ∧
+    (∀ s, strlcpyL l s = none ∨ strlcpyL l s = strlcpyL l' s) ∧
+    (∀ path b e, pathsliceL path l b e = none ∨ pathsliceL path l b e = pathsliceL path l' b e) ∧
+    (∀ name, gennameBufL l name = none ∨ gennameBufL l name = gennameBufL l' name) ∧
+    (∀ home str, expandTildeL l home str = none ∨ expandTildeL l home str = expandTildeL l' home str) :=
+  ⟨fun d f => (pathjoinL_Exact d f).mono h, fun s => (strlcpyL_Exact s).mono h,
+   fun path b e => (pathsliceL_Exact path b e).mono h, fun name => (gennameBufL_Exact name).mono h,
+   fun home str => expandTildeL_mono home str h⟩
+
+/-- What `pathslice` accepts is never longer than the path it slices: a buffer of `|path| + 1` bytes is as good as an
+unbounded one (this is what `Lim.inf` means for `pathsliceL`). -/
+theorem C18_pathslice_unbounded (path : Bytes) (n : Nat) (b e : Int) (s : Bytes) (h : pathslice path n b e = some s) :
+    s.length < n ∧ s.length ≤ path.length ∧ pathsliceL path .inf b e = some s :=
+  ⟨(pathslice_length h).1, (pathslice_length h).2, pathslice_big h⟩
+
+/-! ## the whole run -/
+
+/-- **One unit of work** (one message; the step from `new` to `cur`; opening a configured maildir; spooling standard
+input; or any part of the loop that fills no buffer), started in ANY state, for `L ≤ L'`: the unit under `L` is in lock
+step with the unit under `L'` - same calls, same arguments, same results, same value - until a setter overflows under
+`L`; from there it only gives back descriptors (`close`, `closedir`, `fclose`) and returns its error value (error flag
+set / `NULL`): no further call on the message or maildir. -/
+theorem C18_unit_refines {L L' : Limits} (hle : L ≤ L') (hs : Sane L) {env : PEnv} {orc : EvalOracles} {β : Type}
+    {F : Limits → Prog β} {E : β → Prop} (h : IsUnit env orc F E) : Sim (RelErr E) (F L) (F L') :=
+  h.sim hle hs
+
+/-- The unit "one message", spelled out. -/
+theorem C18_message_refines {L L' : Limits} (hle : L ≤ L') (hs : Sane L) (env : PEnv) (orc : EvalOracles) (expr : Expr)
+    (md : Maildir) (name : Bytes) (st : MainSt) :
+    Sim (RelErr (fun r : MainSt × Maildir => r.1.error = true))
+      (processMessageL L env orc expr md name st) (processMessageL L' env orc expr md name st) :=
+  processMessageL_sim hle hs env orc expr md name st
+
+/-- **The run is a sequence of units**: the run under `L` and the run under `L'` are built from the same units in the
+same way (`PSim`: a unit `F`, taken at `L` on one side and at `L'` on the other, then continuations that are again so
+related), and after a unit that returned an error value everything the run can still do ends in the error status. -/
+theorem C18_run_units (L L' : Limits) (env : PEnv) (orc : EvalOracles) (confOk : Bool) (conf : List ConfBlock) (files : Files)
+    (input : Bytes) :
+    PSim env orc L L' MainErr (mainPL L env orc confOk conf files input) (mainPL L' env orc confOk conf files input) :=
+  mainPL_psim env orc L L' confOk conf files input
+
+/-- **`C18_refines_unbounded`**: for all limits `L ≤ L'`, all configurations, trees, environments: the run under `L`
+and the run under `L'` issue the same calls with the same arguments and agree on every value up to the first setter
+that overflows under `L`; at that point (`Stopped`) the unit that overflowed only releases descriptors, the loop goes
+on with the next unit and whatever happens then, the run ends with the error flag set and a non-zero exit status.
+(`Sim` is a statement about the two programs, so it holds for every way the calls can be answered: every file system,
+fault plan and interleaving - `C18_no_truncated_path` reads it off the traces.) -/
+theorem C18_refines_unbounded {L L' : Limits} (hle : L ≤ L') (hs : Sane L) (env : PEnv) (orc : EvalOracles) (confOk : Bool)
+    (conf : List ConfBlock) (files : Files) (input : Bytes) :
+    Sim (Stopped MainErr) (mainPL L env orc confOk conf files input) (mainPL L' env orc confOk conf files input) :=
+  (mainPL_psim env orc L L' confOk conf files input).sim hle hs
+
+/-- The model at the platform's limits against ideal, unbounded strings. -/
+theorem C18_refines_ideal (env : PEnv) (orc : EvalOracles) (confOk : Bool) (conf : List ConfBlock) (files : Files) (input : Bytes) :
+    Sim (Stopped MainErr) (mainP env orc confOk conf files input) (mainPL Limits.unbounded env orc confOk conf files input) := by
+  rw [← mainPL_std]
+  exact C18_refines_unbounded (Limits.le_unbounded _) sane_std env orc confOk conf files input
+
+/-- **`C18_no_truncated_path`**: for every way the calls are answered (`orc j c` is the result of the `j`-th call): the
+run of `mainP` and the run with ideal strings are the same run - same calls, same path and name arguments, same
+results, same exit status and state - or they share a prefix `pre` of identical calls, after which `mainP` only
+releases descriptors (`rels`) of the unit that overflowed, continues with the next unit (`rest`) and ends with the
+error flag set and a non-zero exit status.  Every path or name `mainP` passes to a call of `pre` is therefore the
+full string the ideal run passes at the same position; for the calls after the first overflow the same holds unit by
+unit (`C18_unit_no_truncated_path` with `C18_run_units`). -/
+theorem C18_no_truncated_path (env : PEnv) (eo : EvalOracles) (confOk : Bool) (conf : List ConfBlock) (files : Files) (input : Bytes)
+    (orc : Nat → Call → Res) :
+    let p := mainP env eo confOk conf files input
+    let q := mainPL Limits.unbounded env eo confOk conf files input
+    (runOracle orc p 0 [] = runOracle orc q 0 []) ∨
+      ∃ pre rels rest : List (Call × Res),
+        (runOracle orc p 0 []).2 = pre ++ rels ++ rest ∧ pre <+: (runOracle orc q 0 []).2 ∧
+        (∀ x ∈ rels, x.1.isRelease = true) ∧
+        (runOracle orc p 0 []).1.2.error = true ∧ (runOracle orc p 0 []).1.1 ≠ 0 := by
+  intro p q
+  rcases (C18_refines_ideal env eo confOk conf files input).trace_stopped orc 0 with ⟨h1, h2⟩ | ⟨pre, rels, rest, h1, h2, h3, h4⟩
+  · left
+    rw [runOracle_eq, runOracle_eq]
+    show (valueFrom orc p 0, [] ++ callsFrom orc p 0) = (valueFrom orc q 0, [] ++ callsFrom orc q 0)
+    rw [h1, h2]
+  · right
+    exact ⟨pre, rels, rest, h1, h2, h3, h4.1, h4.2⟩
+
+/-- **Every call of a unit, from any state, under any oracle**: the calls of the unit under `L` are `pre ++ rels` where
+`pre` is, call for call (arguments and results), a prefix of what the unit under `L'` issues at the same positions, and
+`rels` are releases of descriptors; either nothing overflowed (`rels = []`, the same calls, the same value), or the value
+is the unit's error value. -/
+theorem C18_unit_no_truncated_path {L L' : Limits} (hle : L ≤ L') (hs : Sane L) {env : PEnv} {eo : EvalOracles} {β : Type}
+    {F : Limits → Prog β} {E : β → Prop} (h : IsUnit env eo F E) (orc : Nat → Call → Res) (i : Nat) :
+    ∃ pre rels : List (Call × Res), callsFrom orc (F L) i = pre ++ rels ∧ pre <+: callsFrom orc (F L') i ∧
+      (∀ x ∈ rels, x.1.isRelease = true) ∧
+      ((valueFrom orc (F L) i = valueFrom orc (F L') i ∧ rels = [] ∧ pre = callsFrom orc (F L') i) ∨ E (valueFrom orc (F L) i)) :=
+  (h.sim hle hs).trace_relErr orc i
+
+/-- In stdin mode the unit that can overflow before any message exists is the spool (`maildir_stdin`: the template in
+TMPDIR, `root/new`, the generated name).  After ANY outcome of it - overflow included - `maildir_close` removes what was
+created with `rmdir(md_path)`, `rmdir(md_root)`; `md_path` is then the empty string or `md_root/new` IN FULL (and
+`md_root` the empty string or what `mkdtemp` returned): the buffers are cleared on overflow, a shortened path is never
+removed.  (The pinned defect of DESIGN section 4 - `rmdir` of a truncated `md_root` - is gone with /repo commit adcfac2.) -/
+theorem C18_spool_cleanup_paths (L : Limits) (env : PEnv) (input : Bytes) :
+    All (fun r : Maildir × Bool × Option Bytes => r.1.path = [] ∨ r.1.path = r.1.root ++ [47] ++ subdirName .new)
+      (maildirStdinL L env input) :=
+  maildirStdinL_paths L env input
+
+/-- The step from `new` to `cur` cannot overflow when the maildir was opened: `root/new` and `root/cur` have the same
+length.  (So the only path a walked maildir can fail on is the one of `maildir_open`.) -/
+theorem C18_cur_fits_when_new_fits (l : Lim) (root p : Bytes) (h : pathjoinL l root (subdirName .new) = some p) :
+    pathjoinL l root (subdirName .cur) = some (root ++ [47] ++ subdirName .cur) := by
+  rw [pathjoinL_exact] at h ⊢
+  have e : (subdirName .cur).length = (subdirName .new).length := by decide
+  rw [e]
+  split at h
+  · rename_i hf; rw [if_pos hf]
+  · cases h
+
+/-! ## where an over-long string is NOT an error, and why the name buffer must hold `new` -/
+
+/-- The conditions `new` / `old` slice the `new`/`cur` component of the message path into a `NAME_MAX + 1` buffer and
+treat a failure as "no match".  With a name buffer of 3 bytes (which cannot hold `new`) the evaluation silently differs
+from the ideal one, so `C18_refines_unbounded` needs `Sane L` (the buffer holds 3 characters and the terminator; the
+platform has 256).  With `Sane L` a component that does not fit is not `new` or `cur` for ideal strings either. -/
+theorem C18_sane_needed :
+    ∃ (L L' : Limits) (env : Env) (m : Msg) (st : St), L ≤ L' ∧ ¬ Sane L ∧
+      (evalL L env m (.new 1) 0 m st).1 = .nomatch ∧ (evalL L' env m (.new 1) 0 m st).1 = .match := by
+  refine ⟨{ pathMax := .inf, nameMax1 := .fin 3, hostMax := .inf }, Limits.unbounded,
+    { rx := fun _ _ => .nomatch, command := fun _ => 0, isDir := fun _ => false, now := 0, strptime := fun _ => none,
+      zoneName := fun _ => none, fileTime := fun _ => none, dryrun := false, path := ofString "/m/new/1" },
+    { headers := [], body := [] }, { ml := [], flags := ⟨0, 0⟩ }, ⟨trivial, trivial, trivial⟩, by decide, ?_, ?_⟩
+  · simp only [evalL]; decide +kernel
+  · simp only [evalL]; decide +kernel
+
+/-! ## configuration time -/
+
+/-- **What the parser tests**: exactly the strings that start with `~`, after replacing `~` by the home directory, in
+a buffer of `PATH_MAX` bytes (`expandtilde`, parse.y); any other string - a literal path of any length, and whatever
+macros expand to, because `expandmacros` runs after `expandtilde` - passes the parser unmeasured. -/
+theorem C18_config_time_what_is_tested (l : Lim) (home : Bytes) :
+    (∀ r, expandTildeL l home (126 :: r) = if l.fits (home.length + r.length) then some (home ++ r) else none) ∧
+    (∀ str, (∀ r, str ≠ 126 :: r) → expandTildeL l home str = some str) ∧
+    (∀ action ms str, expandStr l home action ms str =
+      (expandTildeL l home str).bind fun s => expandMacros action (s.length + 1) s ms []) := by
+  refine ⟨fun r => rfl, fun str h => expandTildeL_plain l home str h, fun action ms str => ?_⟩
+  unfold expandStr
+  cases expandTildeL l home str <;> rfl
+
+/-- **`C18_config_time`**: the parser under the smaller `expandtilde` buffer gives exactly what the parser under the
+larger one gives - the same trees, the same diagnostic - or it rejects the configuration; and the run from the
+configuration TEXT under `L` is in lock step with the run under `L'` until the first overflow, which for a `~` path is
+at configuration time: then the run opens and closes the configuration file (as the other run does) and stops with the
+error status - no maildir is opened, no message touched (`C18_config_rejected_whole`). -/
+theorem C18_config_time {L L' : Limits} (hle : L ≤ L') (hs : Sane L) (env : PEnv) (orc : EvalOracles) (rxOk : Pat → Bool)
+    (defs : List (Bytes × Bytes)) (confText : Bytes) (files : Files) (input : Bytes) :
+    (parseConfigL L.pathMax env.home defs rxOk confText = parseConfigL L'.pathMax env.home defs rxOk confText ∨
+      ∃ line, parseConfigL L.pathMax env.home defs rxOk confText = .error line) ∧
+    Sim (Stopped MainErr) (mainTextL L env orc rxOk defs confText files input)
+      (mainTextL L' env orc rxOk defs confText files input) :=
+  ⟨parseConfigL_mono hle.1 env.home defs rxOk confText, mainTextL_sim hle hs env orc rxOk defs confText files input⟩
+
+/-- A configuration the parser rejects - under any limits, here because a `~` path does not fit - is rejected as a
+whole: the run IS the run of `Model.mainP` with verdict "rejected", for which `C14_reject_whole_text` /
+`C04_reject_no_call` show that the only calls are `fopen` and `fclose` of the configuration file and the exit status
+is 1 (75 in stdin mode). -/
+theorem C18_config_rejected_whole (L : Limits) (env : PEnv) (orc : EvalOracles) (rxOk : Pat → Bool) (defs : List (Bytes × Bytes))
+    (confText : Bytes) (files : Files) (input : Bytes) (line : Nat)
+    (h : parseConfigL L.pathMax env.home defs rxOk confText = .error line) (w : World) (plan : Plan) :
+    let p := mainTextL L env orc rxOk defs confText files input
+    p = mainP env orc false [] files input ∧
+    (runPlan plan p w 0 []).1.2.error = true ∧ (runPlan plan p w 0 []).1.1 = (if env.stdinMode then 75 else 1) ∧
+    (Proofs.callsOf plan p w = [Call.fopen env.confpath] ∨
+      ∃ hd, Proofs.callsOf plan p w = [Call.fopen env.confpath, Call.fclose hd]) := by
+  intro p
+  have hp : p = mainP env orc false [] files input := mainTextL_rejected L env orc rxOk defs confText files input h
+  have hb := Proofs.bad_config_only_reads_config env orc [] files input w plan
+  have hx := Proofs.exit_status_table env orc false [] files input w plan
+  simp only at hb hx
+  refine ⟨hp, ?_, ?_, ?_⟩
+  · rw [hp]; exact hb.1
+  · rw [hp, hx]
+    simp only [exitStatus, hb.1, if_true, Gen.exTempfail]
+  · rw [hp]; exact hb.2
+
+/-- Literal (and macro-expanded) paths are tested where they are used, per maildir and per message: a configured
+maildir whose path, or path + `/new`, does not fit is not opened (no call), the error flag is set and the loop goes on
+with the next maildir; a `move` destination, a `flag` subdirectory, an `isdirectory` path that does not fit makes the
+evaluation of the rule an error for that message. -/
+theorem C18_literal_paths_tested_at_use (L : Limits) :
+    (∀ p, (strlcpyL L.pathMax p = none ∨ pathjoinL L.pathMax p (subdirName .new) = none) → openMaildirL L p = pure none) ∧
+    (∀ env root lno path part m st, strlcpyL L.pathMax path = none →
+      evalL L env root (.move lno path) part m st = (.error, st)) ∧
+    (∀ env root lno sd part m st, strlcpyL L.nameMax1 sd = none →
+      evalL L env root (.flag lno sd) part m st = (.error, st)) ∧
+    (∀ env root lno path part m st, strlcpyL L.pathMax path = none →
+      (evalL L env root (.stat lno path) part m st).1 = .error) := by
+  refine ⟨fun p h => ?_, fun env root lno path part m st h => ?_, fun env root lno sd part m st h => ?_,
+    fun env root lno path part m st h => ?_⟩
+  · unfold openMaildirL
+    rcases h with h | h
+    · rw [h]
+    · rw [h]; cases strlcpyL L.pathMax p <;> rfl
+  · simp only [evalL, h]
+  · simp only [evalL, h]
+  · simp only [evalL, h]
+    split <;> rfl
+
+/-! ## the index level -/
+
+open L0 in
+/-- **At the index level** (`Model/L0/Util.lean`: `pathslice` writing byte by byte into a caller's buffer of `bufsiz`
+bytes): whenever it runs out of room - a truncation of the slice is then in the buffer - it returns `NULL` (`none`):
+the buffer is not handed to the caller.  Whenever it returns the buffer, the C string in it is the COMPLETE slice
+(that of an unbounded buffer) and is shorter than `bufsiz`.  Ties `L0.pathslice` through `C07_L0_refines_util`
+(`l0r_pathslice_refines`) to `C18_limits_exact`. -/
+theorem C18_L0_truncation_never_used (path : Buf) (hp : path.bytes.back? = some 0) (buf : Buf) (bufsiz : Nat)
+    (hb : bufsiz ≤ buf.size) (beg end_ : Int) :
+    ∃ r, L0.pathslice path buf bufsiz beg end_ = .ok r ∧
+      (∀ d, r = some d → pathsliceL (path.view 0) .inf beg end_ = some (d.view 0) ∧ (d.view 0).length < bufsiz) ∧
+      (r = none → ∀ s, pathsliceL (path.view 0) .inf beg end_ = some s → bufsiz ≤ s.length) := by
+  obtain ⟨r, hr, hrel⟩ := l0r_pathslice_refines path (Buf.Terminated.hasNul0 hp) buf bufsiz hb beg end_
+  refine ⟨r, hr, fun d hd => ?_, fun hn s hs => ?_⟩
+  · subst hd
+    simp only [Option.map_some] at hrel
+    exact ⟨pathslice_big hrel.symm, (pathslice_length hrel.symm).1⟩
+  · subst hn
+    simp only [Option.map_none] at hrel
+    have hex := (C18_limits_exact bufsiz).2.2.1 (path.view 0) beg end_
+    rw [hs] at hex
+    simp only [Option.bind_some] at hex
+    by_cases hlt : s.length < bufsiz
+    · rw [if_pos hlt] at hex
+      have : pathslice (path.view 0) bufsiz beg end_ = some s := hex
+      rw [← hrel] at this
+      cases this
+    · omega
+
+/-! ## over-long paths that arise in the MIDDLE of an action list
+
+`match_interpolate` has already `strlcpy`-truncated `mh_path` when it reports the over-long destination; what keeps
+`matches_exec` away from that truncation is that `matches_interpolate` stops at the first failure and reports it whatever
+the remaining entries do (`error = 1; break;`).  The model's `matchesInterpolate` has that order and stop behaviour (tied to
+match.c by the `eval` request of the unit harness with a failing entry followed by succeeding ones, and by the position
+family of the process stage); here it is proved for all limits. -/
+
+/-- **`C18_interpolation_failure_is_sticky`**: for every match list, all limits: if `match_interpolate` fails for ANY
+entry `i` of the list (judged on the list as it is handed to `matches_interpolate`, with any message `msgs0` - whether an
+entry can be interpolated depends neither on the message nor on what the interpolation of earlier entries stored) then
+`matches_interpolate` fails as a whole, whatever entries follow and whether they can be interpolated. -/
+theorem C18_interpolation_failure_is_sticky (L : Limits) (env : Env) (ml : MatchList) (msgs msgs0 : Nat → Msg) (i : Nat) (mh : Match)
+    (hi : ml[i]? = some mh)
+    (hf : matchInterpolateL L (some [(ofString "path", env.path)]) ml i mh msgs0 = none) :
+    matchesInterpolateL L env ml msgs = none :=
+  matchesInterpolateL_none_of_entry L env ml msgs msgs0 i mh hi hf
+
+/-- The same for the functions the correspondence run compares with match.c (`PATH_MAX` = 4096). -/
+theorem C18_interpolation_failure_is_sticky_platform (env : Env) (ml : MatchList) (msgs msgs0 : Nat → Msg) (i : Nat) (mh : Match)
+    (hi : ml[i]? = some mh)
+    (hf : matchInterpolate (some [(ofString "path", env.path)]) ml i mh msgs0 = none) :
+    matchesInterpolate env ml msgs = none := by
+  rw [← matchesInterpolateL_std]
+  exact matchesInterpolateL_none_of_entry stdLimits env ml msgs msgs0 i mh hi (by rw [matchInterpolateL_std]; exact hf)
+
+/-- **What "fails" means**, exactly: `matches_interpolate` fails IFF for some entry a template cannot be interpolated
+(reference to a group that does not exist, unknown macro, unterminated `${`: `C12_backref_lookup`, `C12_interpolate`) or
+the entry is a `move` / `isdirectory` whose INTERPOLATED path does not fit the path buffer.  (The strings of `flag`,
+`flags`, `discard`, ... are not interpolated: those entries never fail here; their paths were measured when the entry was
+appended, `C18_literal_paths_tested_at_use`.) -/
+theorem C18_interpolation_fails_iff (L : Limits) (env : Env) (ml : MatchList) (msgs : Nat → Msg) :
+    matchesInterpolateL L env ml msgs = none ↔
+      ∃ (i : Nat) (mh : Match), ml[i]? = some mh ∧
+        ((∃ t ∈ Proofs.templates mh, interpolate (ml.take i) (some [(ofString "path", env.path)]) t = none) ∨
+         ((mh.ty = .move ∨ mh.ty = .stat) ∧
+            ∃ p, interpolate (ml.take i) (some [(ofString "path", env.path)]) mh.path = some p ∧ L.pathMax.fits p.length = false)) := by
+  rw [matchesInterpolateL_none_iff]
+  constructor
+  · rintro ⟨i, mh, hi, hf⟩
+    exact ⟨i, mh, hi, (matchInterpolateL_none_iff L _ ml i mh msgs).mp (hf msgs)⟩
+  · rintro ⟨i, mh, hi, h⟩
+    exact ⟨i, mh, hi, fun msgs0 => (matchInterpolateL_none_iff L _ ml i mh msgs0).mpr h⟩
+
+/-- **The over-long case, explicitly**: a `move` (or `isdirectory`) entry ANYWHERE in the list whose interpolated path has
+`p.length` characters and does not fit the path buffer of `L`: `matches_interpolate` fails, whatever follows the entry
+(a `label`, an `add-header`, an `exec`, the actions of a later rule reached through `pass`). -/
+theorem C18_overlong_interpolation_fails_all (L : Limits) (env : Env) (ml : MatchList) (msgs : Nat → Msg) (i : Nat) (mh : Match)
+    (hi : ml[i]? = some mh) (hty : mh.ty = .move ∨ mh.ty = .stat) (p : Bytes)
+    (hp : interpolate (ml.take i) (some [(ofString "path", env.path)]) mh.path = some p)
+    (hfit : L.pathMax.fits p.length = false) :
+    matchesInterpolateL L env ml msgs = none :=
+  matchesInterpolateL_none_of_entry L env ml msgs msgs i mh hi (matchInterpolateL_overlong L _ ml i mh msgs hty p hp hfit)
+
+/-- **... and then nothing is done with the message** (all limits, whatever the calls return): when in this run the rules
+match - the result `ev` of the evaluation program `evalPL L` (Model/LimitsWorld.lean; `command`, `isdirectory` and
+file-time `date` conditions call the operating system), run after the parse phase - and `match_interpolate` fails for some
+entry `i` of the resulting list - wherever it stands in the list -, `processMessageL` issues no mutating call: every call is
+one of the parse phase (`openat(O_RDONLY)` / `read` / `close`) or of evaluation (`Proofs.EvalCallOf expr`: `stat` only for a
+rule tree with an `isdirectory` or file-time `date` condition; `open("/dev/null")`, `fork`, `waitpid`, `close` only for one
+with a `command` condition - in particular no process is started for a tree without `command` conditions), in that order,
+and after them only `close`; the outcome is the error flag, the files, the log and the maildir unchanged.  In particular no
+call names `mh_path` (neither the intended path nor a truncation of it) and no later action of the list is executed. -/
+theorem C18_interpolation_failure_no_effect (L : Limits) (env : PEnv) (orc : EvalOracles) (expr : Expr) (md : Maildir) (name : Bytes)
+    (st : MainSt) (d : Handle) (content p n : Bytes) (mf : MFlags) (i : Nat) (mh : Match) (msgs0 : Nat → Msg)
+    (hd : md.dirH = some d) (hf : st.files.get md.path name = some content)
+    (hp : pathjoinL L.pathMax md.path name = some p) (hn : strlcpyL L.nameMax1 name = some n)
+    (hmf : flagsParse n = some mf)
+    (orcl : Nat → Call → Res) (ev : Tri × St)
+    (hrun : (Proofs.Own.runO orcl (evalPL L (Proofs.msgEnv env orc p) expr (parseMessage content) mf)
+      (Proofs.Own.runO orcl (messageParsePL L d md.path name content) 0).2.2).1 = ev)
+    (hev : ev.1 = .match)
+    (hi : ev.2.ml[i]? = some mh)
+    (hfail : matchInterpolateL L (some [(ofString "path", p)]) ev.2.ml i mh msgs0 = none) :
+    (runOracle orcl (processMessageL L env orc expr md name st) 0 []).1 = ({ st with error := true }, md) ∧
+    (∀ x ∈ (runOracle orcl (processMessageL L env orc expr md name st) 0 []).2,
+      (((∃ nm, x.1 = .openRd d nm) ∨ (∃ fd, x.1 = .read fd) ∨ ∃ fd, x.1 = .close fd) ∨ Proofs.EvalCallOf expr x.1) ∧
+        x.1.mutating = false ∧ (x.1 = .fork → Proofs.hasCommand expr = true)) ∧
+    ∃ E T, (runOracle orcl (processMessageL L env orc expr md name st) 0 []).2 =
+        (runOracle orcl (messageParsePL L d md.path name content) 0 []).2 ++ E ++ T ∧
+        (∀ x ∈ E, Proofs.EvalCallOf expr x.1) ∧ ∀ x ∈ T, ∃ fd, x.1 = .close fd := by
+  obtain ⟨tri, est⟩ := ev
+  simp only at hev hi hfail
+  subst hev
+  obtain ⟨h1, h2, h3⟩ := processMessageL_interp_error_run L env orc expr md name st d content p n mf est hd hf hp hn hmf orcl hrun
+      (matchesInterpolateL_none_of_entry L (Proofs.msgEnv env orc p) est.ml _ msgs0 i mh hi hfail)
+  exact ⟨h1, fun x hx => ⟨(h2 x hx).1, (h2 x hx).2, fun hfk => Proofs.ParseEvalCall.fork (hfk ▸ (h2 x hx).1)⟩, h3⟩
+
+/-- `C18_interpolation_failure_no_effect` for a rule tree without `command`, `isdirectory` and file-time `date` conditions
+(`Proofs.asksFree`), in terms of the pure evaluator `evalL`: every call is `openat(O_RDONLY)` / `read` / `close`,
+non-mutating, no `fork`, and after the parse phase only `close`. -/
+theorem C18_interpolation_failure_no_effect_pure (L : Limits) (env : PEnv) (orc : EvalOracles) (expr : Expr) (md : Maildir)
+    (name : Bytes) (st : MainSt) (d : Handle) (content p n : Bytes) (mf : MFlags) (i : Nat) (mh : Match) (msgs0 : Nat → Msg)
+    (hd : md.dirH = some d) (hf : st.files.get md.path name = some content)
+    (hp : pathjoinL L.pathMax md.path name = some p) (hn : strlcpyL L.nameMax1 name = some n)
+    (hmf : flagsParse n = some mf) (hfree : Proofs.asksFree expr = true)
+    (hev : (evalL L (Proofs.msgEnv env orc p) (parseMessage content) expr 0 (parseMessage content)
+      { ml := [], flags := mf }).1 = .match)
+    (hi : (evalL L (Proofs.msgEnv env orc p) (parseMessage content) expr 0 (parseMessage content)
+      { ml := [], flags := mf }).2.ml[i]? = some mh)
+    (hfail : matchInterpolateL L (some [(ofString "path", p)])
+      (evalL L (Proofs.msgEnv env orc p) (parseMessage content) expr 0 (parseMessage content) { ml := [], flags := mf }).2.ml
+      i mh msgs0 = none)
+    (orcl : Nat → Call → Res) :
+    (runOracle orcl (processMessageL L env orc expr md name st) 0 []).1 = ({ st with error := true }, md) ∧
+    (∀ x ∈ (runOracle orcl (processMessageL L env orc expr md name st) 0 []).2,
+      ((∃ nm, x.1 = .openRd d nm) ∨ (∃ fd, x.1 = .read fd) ∨ ∃ fd, x.1 = .close fd) ∧
+        x.1.mutating = false ∧ x.1 ≠ .fork) ∧
+    ∃ T, (runOracle orcl (processMessageL L env orc expr md name st) 0 []).2 =
+        (runOracle orcl (messageParsePL L d md.path name content) 0 []).2 ++ T ∧ ∀ x ∈ T, ∃ fd, x.1 = .close fd := by
+  cases h : evalL L (Proofs.msgEnv env orc p) (parseMessage content) expr 0 (parseMessage content) { ml := [], flags := mf } with
+  | mk tri est =>
+    rw [h] at hev hi hfail
+    simp only at hev hi hfail
+    subst hev
+    exact processMessageL_interp_error_run_pure L env orc expr md name st d content p n mf est hd hf hp hn hmf hfree h
+      (matchesInterpolateL_none_of_entry L (Proofs.msgEnv env orc p) est.ml _ msgs0 i mh hi hfail) orcl
+
+/-- Oracles for the example: every pattern matches its subject with group 0 = group 1 = the first 8 bytes. -/
+def C18_exampleOracles : EvalOracles :=
+  { rx := fun _ _ => .ok [some (0, 8), some (0, 8)], strptime := fun _ => none, zoneName := fun _ => none }
+
+/-- Non-vacuity: `match header "X-Tail" /(.*)/ move "/d/\1" label "x"` on a message with `X-Tail: abcdefgh`, path buffer
+of 12 bytes.  The rules match; the list is `[match, header, move, label]`; the `move` entry (position 2, NOT the last) has the
+template `/d/\1/new` (9 characters: fits) and the interpolated path `/d/abcdefgh/new` (15 characters: does not fit), its
+`match_interpolate` fails; the `label` entry AFTER it can be interpolated on its own - and the list as a whole fails, so
+the hypotheses of `C18_interpolation_failure_no_effect` hold.  Under ideal strings the same list is interpolated in full
+(destination `/d/abcdefgh/new`; the `label` entry carries the maildir of the message, `/m/new`). -/
+example :
+    let L : Limits := { pathMax := .fin 12, nameMax1 := .fin 8, hostMax := .inf }
+    let content := ofString "X-Tail: abcdefgh\n\nb\n"
+    let expr : Expr := .mtch 1 (.header 1 [ofString "X-Tail"] { src := ofString "(.*)" })
+      (.and 1 (.move 1 (ofString "/d/\\1")) (.label 1 [ofString "x"]))
+    let p := ofString "/m/new/1"
+    let ev := fun L => evalL L (Proofs.msgEnv Proofs.examplePEnv C18_exampleOracles p) (parseMessage content) expr 0
+      (parseMessage content) { ml := [], flags := MFlags.empty }
+    let msgs := partMsg (parseMessage content) ((getAttachments (parseMessage content)).getD [])
+    pathjoinL L.pathMax (ofString "/m/new") (ofString "1") = some p ∧
+    strlcpyL L.nameMax1 (ofString "1") = some (ofString "1") ∧ flagsParse (ofString "1") = some MFlags.empty ∧
+    (ev L).1 = .match ∧
+    (ev L).2.ml.map (·.ty) = [.mtch, .header, .move, .label] ∧
+    ((ev L).2.ml[2]?).map (·.path) = some (ofString "/d/\\1/new") ∧
+    (((ev L).2.ml[2]?).map fun mh => (matchInterpolateL L (some [(ofString "path", p)]) (ev L).2.ml 2 mh msgs).isNone) = some true ∧
+    (((ev L).2.ml[3]?).map fun mh => (matchInterpolateL L (some [(ofString "path", p)]) (ev L).2.ml 3 mh msgs).isSome) = some true ∧
+    matchesInterpolateL L (Proofs.msgEnv Proofs.examplePEnv C18_exampleOracles p) (ev L).2.ml msgs = none ∧
+    ((matchesInterpolateL Limits.unbounded (Proofs.msgEnv Proofs.examplePEnv C18_exampleOracles p) (ev Limits.unbounded).2.ml msgs).map
+      fun r => r.1.map (·.path)) = some [[], [], ofString "/d/abcdefgh/new", ofString "/m/new"] := by
+  intro L content expr p ev msgs
+  simp only [ev, expr, evalL]
+  simp only [L, content, p, msgs]
+  decide +kernel
+
+/-- Non-vacuity of the platform form with the other kind of failure: `move "/d/\\1"` where the rule has no capturing
+pattern (invalid back-reference), followed by a label that can be interpolated: entry 1 fails, entry 2 does not, the
+list fails. -/
+example :
+    let ml : MatchList := [{ ty := .mtch, lno := 1, part := 0 }, { ty := .move, lno := 1, part := 0, path := ofString "/d/\\1/new" },
+                           { ty := .label, lno := 1, part := 0, strings := [ofString "x"] }]
+    let msgs : Nat → Msg := fun _ => { headers := [], body := [] }
+    ((ml[1]?).map fun mh => (matchInterpolate (some [(ofString "path", Proofs.exampleEnv.path)]) ml 1 mh msgs).isNone) = some true ∧
+    ((ml[2]?).map fun mh => (matchInterpolate (some [(ofString "path", Proofs.exampleEnv.path)]) ml 2 mh msgs).isSome) = some true ∧
+    matchesInterpolate Proofs.exampleEnv ml msgs = none := by
+  decide +kernel
+
+/-! ## non-vacuity and examples -/
+
+/-- The hypotheses of the refinement theorems hold for the platform against ideal strings, and for small limits. -/
+example : stdLimits ≤ Limits.unbounded ∧ Sane stdLimits := ⟨Limits.le_unbounded _, sane_std⟩
+example : ({ pathMax := .fin 64, nameMax1 := .fin 8, hostMax := .fin 8 } : Limits) ≤ stdLimits ∧
+    Sane { pathMax := .fin 64, nameMax1 := .fin 8, hostMax := .fin 8 } := ⟨by decide, by decide⟩
+
+/-- Boundary: a join of 15 characters fits 16 bytes, one of 16 does not; the slice `/m` of `/m/new/1` fits 3 bytes,
+not 2 - and is never shortened. -/
+example : pathjoinL (.fin 16) (ofString "/aaaaaaa") (ofString "bbbbbb") = some (ofString "/aaaaaaa/bbbbbb") ∧
+    pathjoinL (.fin 16) (ofString "/aaaaaaa") (ofString "bbbbbbb") = none ∧
+    pathsliceL (ofString "/m/new/1") (.fin 3) 0 (-2) = some (ofString "/m") ∧
+    pathsliceL (ofString "/m/new/1") (.fin 2) 0 (-2) = none := by decide +kernel
+
+/-- A destination that overflows only AFTER interpolation: `move "/d/\1"` with a 12-byte path buffer.  The template
+(5 characters) fits and so does the joined path of the template; with the captured text `abcdefgh` the interpolated
+path `/d/abcdefgh/new` has 15 characters and does not fit: the interpolation of the match list fails (the message's
+action list is dropped, the error flag set) - under ideal strings it is the full path. -/
+example :
+    let L : Limits := { pathMax := .fin 12, nameMax1 := .fin 8, hostMax := .inf }
+    let mh : Match := { ty := .move, lno := 1, part := 0, maildir := ofString "/d/\\1", subdir := ofString "new",
+                        path := ofString "/d/\\1/new" }
+    let hdr : Match := { ty := .header, lno := 1, part := 0, subs := [{ str := ofString "abcdefgh", off := some (0, 8) },
+                        { str := ofString "abcdefgh", off := some (0, 8) }] }
+    let ml : MatchList := [{ ty := .mtch, lno := 1, part := 0 }, hdr, mh]
+    strlcpyL L.pathMax (ofString "/d/\\1") = some (ofString "/d/\\1") ∧
+    pathjoinL L.pathMax (ofString "/d/\\1") (ofString "new") = some (ofString "/d/\\1/new") ∧
+    matchInterpolateL L (some []) ml 2 mh (fun _ => { headers := [], body := [] }) = none ∧
+    (matchInterpolateL Limits.unbounded (some []) ml 2 mh (fun _ => { headers := [], body := [] })).map (·.1.path) =
+      some (ofString "/d/abcdefgh/new") := by
+  decide +kernel
+
+/-- `maildir "~/box"` with home `/home/user` and an `expandtilde` buffer of 12 bytes: "path too long", the configuration
+is rejected as a whole; with 64 bytes it is accepted.  A literal path of the same length is accepted by the parser under
+both (and refused when the maildir is opened). -/
+example :
+    Proofs.Conf.isErrorAt 1 (parseConfigL (.fin 12) (ofString "/home/user") [] (fun _ => true)
+      (ofString "maildir \"~/box\" { match all move \"x\" }")) = true ∧
+    Proofs.Conf.isOkNonempty (parseConfigL (.fin 64) (ofString "/home/user") [] (fun _ => true)
+      (ofString "maildir \"~/box\" { match all move \"x\" }")) = true ∧
+    Proofs.Conf.isOkNonempty (parseConfigL (.fin 12) (ofString "/home/user") [] (fun _ => true)
+      (ofString "maildir \"/home/user/box\" { match all move \"x\" }")) = true ∧
+    strlcpyL (.fin 12) (ofString "/home/user/box") = none := by
+  refine ⟨by decide +kernel, by decide +kernel, by decide +kernel, by decide +kernel⟩
+
+/-- The index-level `pathslice` on `/m/new/1`: with 3 bytes it returns the buffer holding `/m`; with 2 bytes it returns
+`NULL` (having written `/` into the buffer). -/
+example :
+    (match L0.pathslice (L0.Buf.ofBytes (ofString "/m/new/1")) (L0.Buf.malloc 3) 3 0 (-2) with
+      | .ok (some d) => d.view 0 == ofString "/m"
+      | _ => false) = true ∧
+    (match L0.pathslice (L0.Buf.ofBytes (ofString "/m/new/1")) (L0.Buf.malloc 2) 2 0 (-2) with
+      | .ok none => true
+      | _ => false) = true := by
+  decide +kernel
+/-! ## The default configuration path and the environment (mdsort.c `defaultconf`, `readenv`) -/
+
+theorem confSuffix_length : confSuffix.length = 13 := rfl
+
+/-- `defaultconf`, for every buffer size: accepted iff `strlen(home) + 13` (the length of `home/.mdsort.conf`) is
+smaller than the buffer, and then the result is `home ++ "/.mdsort.conf"` in full - never a truncation of it. -/
+theorem C18_defaultconf_exact (siz : Nat) (home : Bytes) :
+    defaultconf siz home = (if home.length + 13 < siz then some (home ++ confSuffix) else none) ∧
+    (∀ p, defaultconf siz home = some p → p = home ++ confSuffix) := by
+  have hl : (home ++ confSuffix).length = home.length + 13 := by rw [List.length_append, confSuffix_length]
+  have key : defaultconf siz home = (if home.length + 13 < siz then some (home ++ confSuffix) else none) := by
+    unfold defaultconf defaultconfWith snprintfInto
+    simp only [hl]
+    by_cases h : home.length + 13 < siz
+    · have h2 : ¬ home.length + 13 ≥ siz := by omega
+      simp only [h, h2, decide_false, Bool.false_eq_true, if_false, if_true]
+      rw [List.take_of_length_le (by rw [hl]; omega)]
+    · have h2 : home.length + 13 ≥ siz := by omega
+      simp only [h, h2, decide_true, if_true, if_false]
+  refine ⟨key, ?_⟩
+  intro p hp
+  rw [key] at hp
+  split at hp
+  · exact (Option.some.inj hp).symm
+  · cases hp
+
+/-- With `PATH_MAX = 4096`: a home directory of up to 4082 bytes is accepted, 4083 and more rejected. -/
+theorem C18_defaultconf_limit (home : Bytes) :
+    (defaultconf PATH_MAX home).isSome = decide (home.length ≤ 4082) := by
+  rw [(C18_defaultconf_exact PATH_MAX home).1]
+  by_cases h : home.length ≤ 4082
+  · have : home.length + 13 < PATH_MAX := by unfold PATH_MAX; omega
+    simp [h, this]
+  · have : ¬ home.length + 13 < PATH_MAX := by unfold PATH_MAX; omega
+    simp [h, this]
+
+/-- Why the test is `n >= siz`: with `n > siz` (one too lenient) a home directory for which `home/.mdsort.conf` has
+exactly `siz` bytes is ACCEPTED and the path handed to `config_parse` is the string minus its last byte
+(`home/.mdsort.con`), a different file - for every buffer size. -/
+theorem C18_defaultconf_needs_ge (siz : Nat) (home : Bytes) (h : home.length + 13 = siz) :
+    defaultconfWith (fun n siz => n > siz) siz home = some ((home ++ confSuffix).take (siz - 1)) ∧
+    (home ++ confSuffix).take (siz - 1) ≠ home ++ confSuffix ∧
+    (home ++ confSuffix).take (siz - 1) = home ++ confSuffix.take 12 := by
+  have hl : (home ++ confSuffix).length = home.length + 13 := by rw [List.length_append, confSuffix_length]
+  refine ⟨?_, ?_, ?_⟩
+  · unfold defaultconfWith snprintfInto
+    simp only [hl]
+    have : ¬ home.length + 13 > siz := by omega
+    simp [this]
+  · intro he
+    have := congrArg List.length he
+    rw [List.length_take, hl] at this
+    omega
+  · rw [List.take_append]
+    have e1 : siz - 1 - home.length = 12 := by omega
+    rw [e1, List.take_of_length_le (by omega)]
+
+theorem strlcpyFits_some {n : Nat} {s r : Bytes} (h : strlcpyFits n s = some r) : r = s ∧ s.length < n := by
+  unfold strlcpyFits at h
+  split at h
+  · cases h
+  · cases h; exact ⟨rfl, by omega⟩
+
+/-- `readenv` copies HOME, TMPDIR and TZ in full or ends the run: accepted iff each value is shorter than its buffer
+(`PATH_MAX`, `PATH_MAX`, 256); what the run continues with is the complete value. -/
+theorem C18_readenv_exact (raw : RawEnv) (h t : Bytes) (hh : raw.home = some h) (hne : h ≠ []) (ht : raw.tmpdir = some t) (tne : t ≠ []) :
+    readenv raw =
+      if h.length ≥ PATH_MAX then .error .homeTooLong
+      else if t.length ≥ PATH_MAX then .error .tmpdirTooLong
+      else match raw.tz with
+        | none => .ok (h, t, none)
+        | some z => if z.length ≥ TZ_BUF then .error .tzTooLong else .ok (h, t, some z) := by
+  have h1 : h.isEmpty = false := by cases h <;> simp_all
+  have t1 : t.isEmpty = false := by cases t <;> simp_all
+  have hs : homeSource raw = some h := by unfold homeSource; rw [hh]; simp [h1]
+  have ts : tmpSource raw = t := by unfold tmpSource; rw [ht]; simp [t1]
+  unfold readenv
+  rw [hs, ts]
+  unfold strlcpyFits
+  by_cases c1 : h.length ≥ PATH_MAX
+  · simp only [c1, if_true]
+  · simp only [c1, if_false]
+    by_cases c2 : t.length ≥ PATH_MAX
+    · simp only [c2, if_true]
+    · simp only [c2, if_false]
+      cases hz : raw.tz with
+      | none => rfl
+      | some z =>
+        simp only
+        by_cases c3 : z.length ≥ TZ_BUF
+        · simp only [c3, if_true]
+        · simp only [c3, if_false]
+
+theorem readenv_ok {raw : RawEnv} {hm tm : Bytes} {z : Option Bytes} (hr : readenv raw = .ok (hm, tm, z)) :
+    homeSource raw = some hm ∧ hm.length < PATH_MAX ∧ tm = tmpSource raw ∧ tm.length < PATH_MAX := by
+  unfold readenv at hr
+  split at hr
+  · cases hr
+  · rename_i p hp
+    split at hr
+    · cases hr
+    · rename_i home hhome
+      split at hr
+      · cases hr
+      · rename_i tmpdir htmp
+        obtain ⟨e1, l1⟩ := strlcpyFits_some hhome
+        obtain ⟨e2, l2⟩ := strlcpyFits_some htmp
+        have : hm = home ∧ tm = tmpdir := by
+          split at hr
+          · cases hr; exact ⟨rfl, rfl⟩
+          · split at hr
+            · cases hr
+            · cases hr; exact ⟨rfl, rfl⟩
+        obtain ⟨rfl, rfl⟩ := this
+        subst e1 e2
+        exact ⟨hp, l1, rfl, l2⟩
+
+/-- The paths a run starts from are never truncations: whenever `main` gets as far as `config_parse`, the home
+directory and the temporary directory are the complete values of the environment (or of the password entry /
+`_PATH_TMP`), shorter than `PATH_MAX`, and the configuration path is the `-f` argument or
+`home ++ "/.mdsort.conf"` in full, shorter than `PATH_MAX`. -/
+theorem C18_start_never_truncates (raw : RawEnv) (fOpt : Option Bytes) (home tmpdir confpath : Bytes)
+    (h : startPaths raw fOpt = .ok (home, tmpdir, confpath)) :
+    homeSource raw = some home ∧ home.length < PATH_MAX ∧ tmpdir = tmpSource raw ∧ tmpdir.length < PATH_MAX ∧
+    (fOpt = some confpath ∨ (fOpt = none ∧ confpath = home ++ confSuffix ∧ confpath.length < PATH_MAX)) := by
+  unfold startPaths at h
+  split at h
+  · cases h
+  · rename_i hm tm z hr
+    have hre := readenv_ok hr
+    split at h
+    · cases h
+      exact ⟨hre.1, hre.2.1, hre.2.2.1, hre.2.2.2, Or.inl rfl⟩
+    · split at h
+      · cases h
+      · rename_i c hd
+        cases h
+        have hc := (C18_defaultconf_exact PATH_MAX home).2 confpath hd
+        have hlen : confpath.length < PATH_MAX := by
+          have := (C18_defaultconf_exact PATH_MAX home).1
+          rw [hd] at this
+          split at this
+          · rw [hc, List.length_append, confSuffix_length]; assumption
+          · cases this
+        exact ⟨hre.1, hre.2.1, hre.2.2.1, hre.2.2.2, Or.inr ⟨rfl, hc, hlen⟩⟩
+
+/-- The run without `-f`: either it ends with status 1 before ANY call (no file is opened, in particular none at a
+truncation of the intended path), or its first call is `fopen` of exactly `home ++ "/.mdsort.conf"`. -/
+theorem C18_default_config_first_call (raw : RawEnv) (env : PEnv) (orc : EvalOracles) (confOk : Bool) (conf : List ConfBlock)
+    (files : Files) (input : Bytes) :
+    (∃ st, mainFromEnv raw none env orc confOk conf files input = .ret (1, st)) ∨
+    (∃ home tmpdir, startPaths raw none = .ok (home, tmpdir, home ++ confSuffix) ∧ homeSource raw = some home ∧
+      ∃ k, mainFromEnv raw none env orc confOk conf files input = .call (.fopen (home ++ confSuffix)) k) := by
+  unfold mainFromEnv
+  cases hs : startPaths raw none with
+  | error e => left; exact ⟨_, rfl⟩
+  | ok v =>
+    obtain ⟨home, tmpdir, confpath⟩ := v
+    right
+    have hall := C18_start_never_truncates raw none home tmpdir confpath hs
+    rcases hall.2.2.2.2 with h | ⟨_, hc, _⟩
+    · cases h
+    · subst hc
+      refine ⟨home, tmpdir, rfl, hall.1, ?_⟩
+      simp only
+      unfold mainP
+      exact ⟨_, rfl⟩
+
+/-! Non-vacuity: a home directory at the limit, one byte beyond, and a complete environment. -/
+
+example : confSuffix = ofString "/.mdsort.conf" := by decide +kernel
+
+example : (defaultconf PATH_MAX (List.replicate 4082 104)).isSome = true ∧ (defaultconf PATH_MAX (List.replicate 4083 104)).isSome = false := by
+  rw [C18_defaultconf_limit, C18_defaultconf_limit, List.length_replicate, List.length_replicate]
+  decide
+
+example : (List.replicate 4083 104 : Bytes).length + 13 = PATH_MAX := by rw [List.length_replicate]; decide
+
+example : (startPaths { home := some (ofString "/home/u"), pwdir := none, tmpdir := some (ofString "/tmp/x"), tz := none, pathTmp := ofString "/tmp/" } none).toOption =
+    some (ofString "/home/u", ofString "/tmp/x", ofString "/home/u/.mdsort.conf") := by decide +kernel
+
+example : ∃ raw : RawEnv, ∃ h t, raw.home = some h ∧ h ≠ [] ∧ raw.tmpdir = some t ∧ t ≠ [] :=
+  ⟨{ home := some [47], pwdir := none, tmpdir := some [47], tz := none, pathTmp := [] }, [47], [47], rfl, by decide, rfl, by decide⟩
 
 end Mdsort.Props
